@@ -121,6 +121,49 @@ fn compound_exact_lie(b: &[u8], r: &Result<(), RtcpParseError>) -> Option<String
     }
 }
 
+/// Errors yielded while an accepted compound is iterated, judged against their own tile.
+fn compound_items_lie(b: &[u8]) -> (Option<(String, String)>, Vec<u8>, bool) {
+    let mut codes = Vec::new();
+    if b.len() < 8 {
+        return (None, codes, false);
+    }
+    let Some(tiles) = crate::c11::reference_tiling(b) else { return (None, codes, false) };
+    if tiles.len() < 2 {
+        return (None, codes, false);
+    }
+    let errs = match guarded(|| {
+        let mut out: Vec<(usize, RtcpParseError)> = Vec::new();
+        if let Ok(c) = Compound::parse(b) {
+            for (k, item) in c.take(tiles.len() + 1).enumerate() {
+                if let Err(e) = item {
+                    out.push((k, e));
+                }
+            }
+        }
+        out
+    }) {
+        Ok(e) => e,
+        Err(_) => return (None, codes, true),
+    };
+    let mut found = None;
+    for (k, e) in errs {
+        let Some(&(o, l)) = tiles.get(k) else { continue };
+        let tile = &b[o..o + l];
+        codes.push(1 + crate::receiver::err_code(&e) as u8);
+        let (pt, min) = if (200..=206).contains(&tile[1]) { (Some(tile[1]), TYPED[(tile[1] - 200) as usize].2) } else { (None, 4) };
+        let r: Result<(), RtcpParseError> = Err(e);
+        let lie = match &r {
+            Err(e) => generic_lie(tile, e, pt).map(|d| ("Lie", d)),
+            Ok(()) => None,
+        }
+        .or_else(|| exact_lie(tile, &r, pt, min).map(|d| ("Inexact", d)));
+        if let (None, Some((kind, d))) = (&found, lie) {
+            found = Some((format!("{kind}:Compound::next"), format!("item {k} of an accepted compound, tile of {} bytes at offset {o}: {d}", tile.len())));
+        }
+    }
+    (found, codes, false)
+}
+
 pub struct VerdictA {
     pub codes: Vec<u8>,
     pub violation: Option<(String, String)>,
@@ -187,7 +230,7 @@ pub fn judge_a(b: &[u8]) -> VerdictA {
     // conversions reject with the same error type: from an accepted generic packet or unknown
     // packet, by reference (`try_as`) and by value (`TryFrom`), into each typed view
     macro_rules! conv {
-        ($ty:ty, $name:expr, $pt:expr) => {{
+        ($ty:ty, $name:expr, $pt:expr, $min:expr) => {{
             let results: [(&str, Result<Option<Result<(), RtcpParseError>>, crate::guard::PanicInfo>); 4] = [
                 ("Packet::try_as", guarded(|| Packet::parse(b).ok().map(|p| p.try_as::<$ty>().map(|_| ())))),
                 ("TryFrom<Packet>", guarded(|| Packet::parse(b).ok().map(|p| <$ty>::try_from(p).map(|_| ())))),
@@ -204,6 +247,14 @@ pub fn judge_a(b: &[u8]) -> VerdictA {
                                 v.violation.get_or_insert((format!("Lie:{how}::<{}>", $name), format!("{how}::<{}> on an accepted packet of {} bytes: {d}", $name, b.len())));
                             }
                         }
+                        // a conversion out of an unknown packet is the typed parser run on its bytes:
+                        // the exactness clauses apply to it (a known variant of another type is turned
+                        // down by its type alone, whatever its size)
+                        if how.contains("Unknown") || !(200..=206).contains(&b[1]) {
+                            if let Some(d) = exact_lie(b, &r, Some($pt), $min) {
+                                v.violation.get_or_insert((format!("Inexact:{how}::<{}>", $name), format!("{how}::<{}> on an accepted packet of {} bytes: {d}", $name, b.len())));
+                            }
+                        }
                     }
                     Err(_) => {
                         v.codes.push(255);
@@ -214,13 +265,27 @@ pub fn judge_a(b: &[u8]) -> VerdictA {
         }};
     }
     if b.len() >= 4 && b[0] >> 6 == 2 && b.len() == 4 * (be16(b, 2) + 1) {
-        conv!(SenderReport, "Sr", 200);
-        conv!(ReceiverReport, "Rr", 201);
-        conv!(Sdes, "Sdes", 202);
-        conv!(Bye, "Bye", 203);
-        conv!(App, "App", 204);
-        conv!(TransportFeedback, "Tfb", 205);
-        conv!(PayloadFeedback, "Pfb", 206);
+        conv!(SenderReport, "Sr", 200, 28);
+        conv!(ReceiverReport, "Rr", 201, 8);
+        conv!(Sdes, "Sdes", 202, 4);
+        conv!(Bye, "Bye", 203, 4);
+        conv!(App, "App", 204, 12);
+        conv!(TransportFeedback, "Tfb", 205, 12);
+        conv!(PayloadFeedback, "Pfb", 206, 12);
+    }
+
+    // the errors an accepted compound hands out while it is iterated are parser errors about
+    // one tile: they must tell the truth about that tile
+    {
+        let (lie, codes, panicked) = compound_items_lie(b);
+        v.codes.extend(codes);
+        if panicked {
+            v.codes.push(255);
+            v.panics += 1;
+        }
+        if let Some(l) = lie {
+            v.violation.get_or_insert(l);
+        }
     }
 
     // non-packet parsers: generic truths, and the minimum-size clause where a minimum exists
@@ -494,6 +559,14 @@ impl Check for C18 {
                 return;
             };
             ctx.stats.trace_digest ^= fnv1a(seed ^ 0xc0, &[code(&r)]);
+            if r.is_ok() {
+                let (lie, codes, panicked) = compound_items_lie(d);
+                ctx.stats.count("layerA_errors_checked", codes.len() as u64);
+                ctx.stats.inconclusive_panics += panicked as u64;
+                if let Some((class, detail)) = lie {
+                    out.push(Violation { class, detail, episode: idx, case: J::obj().set("layer", "A").set("deliver", hex(d)), provenance: prov() });
+                }
+            }
             if let Err(e) = &r {
                 ctx.stats.count("layerA_errors_checked", 1);
                 let lie = generic_lie(d, e, None).map(|x| ("Lie:Compound", x)).or_else(|| compound_exact_lie(d, &r).map(|x| ("Inexact:Compound", x)));
